@@ -404,6 +404,6 @@ func cutRun(prop, tier string, c Case, w *Worker) (res Result) {
 func init() {
 	register(&Engine{Name: "cuts", Props: []string{"C06"}, Cases: cutCases, Run: cutRun})
 	propMeta["C06"] = PropMeta{Level: "fault_enumeration",
-		Rule:        "per case a tape is produced by a generated history (fs-level calls, batched archive/update/delete/move, biased to moves); 'exhaustive' cases (4-7 calls) rebuild the index (recovery.Index, overwrite) from EVERY prefix length 0..len(tape); 'sampled' cases (12-25 calls) from every end of a write issued to the drive (recorded by the drive seam) +-{0,1,255,511}, every record start / content start / content end +-1 and 300 PRNG offsets; after each rebuild (which may return an error but must return): index rows == state of an independent record interpreter after the last completely contained record, except for the entry named by the torn record, which may equal that record; every untorn file restores byte-exactly, the torn one restores correctly or fails; non-trivial = at least 4 records and 100 cut points; distinct = distinct tape",
+		Rule:        "per case a tape is produced by a generated history (fs-level calls, batched archive/update/delete/move, biased to moves); 'exhaustive' cases (4-7 calls) rebuild the index (recovery.Index, overwrite) from EVERY prefix length 0..len(tape); 'sampled' cases (12-25 calls) from every end of a write issued to the drive (recorded by the drive seam) +-{0,1,255,511}, every record start / content start / content end +-1 and 300 PRNG offsets; after each rebuild (which may return an error but must return): index rows == state of an independent record interpreter after the last completely contained record, except for the entry named by the torn record, which may equal that record; every untorn file restores byte-exactly, the torn one restores correctly or fails; non-trivial = at least 4 records and 100 cut points; distinct = distinct tape; a fifth of the contents of at least 1 KiB are themselves tar streams whose members are named like entries of the tree and carry STFS action records",
 		Assumptions: []string{"a record counts as completely written when its header blocks and all its content bytes are on the tape (padding and trailer not required)", "termination is decided by the no-progress watchdog"}}
 }
